@@ -40,9 +40,25 @@ RECURSIVE RandPerm(_)
 RandPerm(S) == IF S = {} THEN <<>>
                ELSE LET x == RandomElement(S) IN <<x>> \o RandPerm(S \ {x})
 
-\* -simulate: every initial state (n, nw, mode) also carries a random sleep-rank vector, so one
-\* record gives the harness a feasible schedule (order) AND arbitrary sleep times (rank)
-SimInit == Init /\ c = 0 /\ rank = RandPerm(0 .. (n - 1))
+\* -simulate: ONE long behaviour = many runs of the spec back to back; after a run has returned,
+\* Restart draws a fresh (n, nw, mode) and a fresh sleep-rank vector.  So every record gives the
+\* harness a feasible schedule (order) AND arbitrary sleep times (rank).
+SimInit == /\ n = 0 /\ nw = 1 /\ mode = "list" /\ c = 0 /\ rank = <<>>
+           /\ pending = {} /\ running = [w \in 1 .. 1 |-> Idle] /\ arrived = <<>> /\ collected = 0
+           /\ store = EmptyFn /\ execs = [i \in {} |-> 0] /\ phase = "run" /\ ret = <<>>
+Restart == /\ phase = "returned"
+           /\ c' = c + 1
+           /\ n' = RandomElement(NSet)
+           /\ nw' = RandomElement(WSet)
+           /\ mode' = RandomElement(Modes)
+           /\ rank' = RandPerm(0 .. (n' - 1))
+           /\ pending' = 0 .. (n' - 1)
+           /\ running' = [w \in 1 .. nw' |-> Idle]
+           /\ arrived' = <<>> /\ collected' = 0 /\ store' = EmptyFn
+           /\ execs' = [i \in 0 .. (n' - 1) |-> 0]
+           /\ phase' = "run" /\ ret' = <<>>
+SimNext == (Next /\ UNCHANGED <<c, rank>>) \/ Restart
+EmitSim == (phase = "returned" /\ c > 0) => PrintT(ToJson(SchedRec))
 
 RankRec == [gen |-> "ranks", n |-> n, w |-> nw, mode |-> mode, rank |-> rank,
             args |-> [k \in 1 .. n |-> Arg(k - 1)], keys |-> [k \in 1 .. n |-> Key(k - 1)],
